@@ -6,6 +6,7 @@ use std::panic::{catch_unwind, AssertUnwindSafe};
 
 thread_local! {
     static LAST_PANIC: RefCell<Option<String>> = const { RefCell::new(None) };
+    static GUARD_DEPTH: std::cell::Cell<u32> = const { std::cell::Cell::new(0) };
 }
 
 pub fn install_panic_hook() {
@@ -21,8 +22,11 @@ pub fn install_panic_hook() {
             .location()
             .map(|l| format!("{}:{}", l.file(), l.line()))
             .unwrap_or_default();
-        if msg.starts_with(crate::model::ORACLE_SELF_CHECK) || msg.starts_with("HARNESS-ERROR") {
-            eprintln!("{} @ {}", msg, loc);
+        // a panic raised by the harness itself (not inside bva, not inside std on bva's behalf) is a harness error:
+        // make it visible; the worker dies and the run is reported as inconclusive
+        let unguarded = !GUARD_DEPTH.with(|d| d.get() > 0);
+        if msg.starts_with(crate::model::ORACLE_SELF_CHECK) || msg.starts_with("HARNESS-ERROR") || unguarded {
+            eprintln!("harness panic: {} @ {}", msg, loc);
         }
         LAST_PANIC.with(|c| *c.borrow_mut() = Some(format!("{} @ {}", msg, loc)));
     }));
@@ -47,7 +51,10 @@ impl PanicInfo {
 /// Run `f`, returning its value or the captured panic.
 pub fn guarded<R>(f: impl FnOnce() -> R) -> Result<R, PanicInfo> {
     LAST_PANIC.with(|c| *c.borrow_mut() = None);
-    match catch_unwind(AssertUnwindSafe(f)) {
+    GUARD_DEPTH.with(|d| d.set(d.get() + 1));
+    let r = catch_unwind(AssertUnwindSafe(f));
+    GUARD_DEPTH.with(|d| d.set(d.get().saturating_sub(1)));
+    match r {
         Ok(r) => Ok(r),
         Err(_) => {
             let msg = LAST_PANIC
